@@ -400,6 +400,11 @@ pub fn parse_name_and_address(
                 ),
             });
         }
+        if line.is_empty() {
+            return Err(ParseError::InvalidFormat {
+                message: format!("{} line {} is empty", field_name, i - start_idx + 1),
+            });
+        }
         parse_swift_chars(line, &format!("{} line {}", field_name, i - start_idx + 1))?;
         name_and_address.push(line.to_string());
     }
@@ -429,11 +434,14 @@ pub fn parse_multiline_text(
     max_lines: usize,
     max_line_length: usize,
 ) -> Result<Vec<String>, ParseError> {
-    let lines: Vec<String> = input
-        .lines()
-        .map(|s| s.to_string())
-        .filter(|s| !s.is_empty())
-        .collect();
+    let lines: Vec<String> = input.split('\n').map(|s| s.to_string()).collect();
+
+    // a line of an n*mx text holds at least one character: a blank line is not dropped, it is an error
+    if lines.iter().any(|s| s.is_empty()) {
+        return Err(ParseError::InvalidFormat {
+            message: "Text contains an empty line".to_string(),
+        });
+    }
 
     if lines.len() > max_lines {
         return Err(ParseError::InvalidFormat {
